@@ -288,8 +288,12 @@ impl GetType for ComparisonExpr {
         if self.lhs.map_each_count() > 0 {
             Type::Array(Type::Bool.into())
         } else if self.op == ComparisonOpExpr::IsTrue {
-            // Bool or Array(Bool)
-            self.lhs.get_type()
+            // Bool or Array(Bool): a container of Bool (array or map) is
+            // compiled to a list of booleans.
+            match self.lhs.get_type() {
+                Type::Bool => Type::Bool,
+                _ => Type::Array(Type::Bool.into()),
+            }
         } else {
             Type::Bool
         }
